@@ -89,6 +89,18 @@ var nestings = []struct{ name, pre, core, suf string }{
 	{"comparisons", "a==", "a", ""},
 	{"object-wildcards", "", "a", ".*"},
 	{"slices", "", "a", "[::-1]"},
+	{"not-nulls", "not_null(", "a", ")"},
+	{"not-nulls-after-a-null", "not_null(z,", "a", ")"},
+	{"right-nested-lists", "[a,", "a", "]"},
+	{"right-nested-hashes", "{x:a,y:", "a", "}"},
+	{"right-nested-pipes", "@|(", "@", ")"},
+	{"right-nested-ors", "z||(", "a", ")"},
+	{"right-nested-ands", "a&&(", "a", ")"},
+	{"to-arrays", "to_array(", "a", ")"},
+	{"merges", "merge(@,", "@", ")"},
+	{"maps", "map(&", "a", ",a)"},
+	{"sort-bys", "sort_by(a,&", "a", ")"},
+	{"nested-wildcard-multiselects", "a[*].[", "a", "]"},
 	{"unclosed-parens", "(", "", ""},
 	{"unclosed-brackets", "[", "", ""},
 	{"unclosed-braces", "{a:", "", ""},
